@@ -17,6 +17,10 @@ module search path with a reference model of exactly the documented clauses.  (3
 consequence: `import name` in the script resolves to the module CPython's own
 `importlib.machinery.PathFinder` finds on that composed path (first entry wins).
 
+(4) Histories: ONE explicitly built Project shared by two (all ordered pairs of the 36 script
+locations) or three scripts: every later script must see what a freshly built equal Project
+gives it, queries must leave the Project's settings untouched, save()/load() must not change.
+
 `a` = <project>/n1 and `a/sub` = <project>/n1/n2 lie on some of the script locations' ancestor
 chains, `b` is a directory outside the project.
 """
@@ -153,8 +157,10 @@ def _fs(v):
 
 
 def _settings(p):
-    return {'path': str(Path(p.path).absolute()), 'sys_path': p.sys_path,
-            'added_sys_path': p.added_sys_path, 'smart_sys_path': p.smart_sys_path,
+    # snapshots, not references: a query that mutates the Project's lists must be visible
+    return {'path': str(Path(p.path).absolute()),
+            'sys_path': None if p.sys_path is None else list(p.sys_path),
+            'added_sys_path': list(p.added_sys_path), 'smart_sys_path': p.smart_sys_path,
             'load_unsafe_extensions': p.load_unsafe_extensions,
             'environment_path': _fs(p._environment_path)}
 
@@ -338,6 +344,94 @@ def _imports(jedi, env, out, cfg, base, only=None):
                           'jedi': res, 'PathFinder': exp})
 
 
+HIST_SYS = [None, ['str', ['b']]]
+HIST_ADDED = [['str', []], ['str', ['a']], ['str', ['a', 'b']]]
+PROBE_SPOTS = ['in:.', 'in:n1', 'in:n1/n2', 'in:p1', 'in:p1/n2', 'in:n1/p2/n3', 'in:p1/p2/p3/n4',
+               'out:out']
+TRIPLE_SPOTS = ['in:n1/n2', 'in:p1/n2', 'in:n1/p2/n3', 'out:out', 'none']
+_fresh = {}
+
+
+def _ask(jedi, env, project, script_path, probe):
+    """What one script sees: the composed path (both flavours) and where `import dupsome` goes."""
+    script = jedi.Script('import dupsome\n', path=script_path, environment=env, project=project)
+    state = script._inference_state
+    r = {'get_sys_path': list(state.get_sys_path()),
+         'get_sys_path(add_init_paths)': list(state.get_sys_path(add_init_paths=True))}
+    if probe:
+        r['import'] = sorted({str(n.module_path) for n in script.infer(1, 10) if n.type == 'module'})
+    return r
+
+
+def _saved(jedi, project, pdir):
+    project.save()
+    return _settings(jedi.Project.load(pdir))
+
+
+def _histories(jedi, env, out, cfg, base, mode, only=None):
+    pval, pdir = _project_path(cfg['form'], base)
+    sp, _ = _entries(cfg['sys_path'], pdir, cfg['binding'])
+    ad, _ = _entries(cfg['added'], pdir, cfg['binding'])
+    locs = dict(_locations(pdir, DEPTH))
+    probe = mode != 'pairs'
+    if mode == 'pairs':
+        seqs = itertools.product(locs, repeat=2)
+    elif mode == 'probe-pairs':
+        seqs = itertools.product(PROBE_SPOTS, repeat=2)
+    else:
+        seqs = itertools.product(TRIPLE_SPOTS, repeat=3)
+
+    def build():
+        return jedi.Project(pval, sys_path=sp, added_sys_path=ad, smart_sys_path=cfg['smart'])
+    cid = _cfg_id(cfg)
+    for seq in seqs:
+        what = ['history', mode, list(seq)]
+        if only is not None and only != what:
+            continue
+        out.n['histories'] = out.n.get('histories', 0) + 1
+
+        def run():
+            fails = []
+            project = build()
+            before = _settings(project)
+            saved_before = _saved(jedi, project, pdir) if probe else None
+            for k, label in enumerate(seq):
+                out.n['evals'] += 1
+                got = _ask(jedi, env, project, locs[label], probe)
+                if k:
+                    key = (cid, label, probe)
+                    if key not in _fresh:
+                        _fresh[key] = _ask(jedi, env, build(), locs[label], probe)
+                        out.n['evals'] += 1
+                    for f, v in _fresh[key].items():
+                        if got[f] != v:
+                            fails.append(('shared-project-differs-from-fresh-project@' + f,
+                                          {'step': k, 'script': locs[label], 'shared_project': got[f],
+                                           'fresh_project': v}))
+                after = _settings(project)
+                for f in before:
+                    if after[f] != before[f]:
+                        fails.append(('project-setting-changed-by-query@' + f,
+                                      {'step': k, 'script': locs[label], 'before': before[f],
+                                       'after': after[f]}))
+            if probe:
+                saved_after = _saved(jedi, project, pdir)
+                for f in saved_before:
+                    if saved_after[f] != saved_before[f]:
+                        fails.append(('save-load-differs-after-queries@' + f,
+                                      {'before': saved_before[f], 'after': saved_after[f]}))
+            return fails
+        ok, fails = _guard(out, what, run)
+        if not ok:
+            continue
+        out.classes.add(('history', mode, cfg['smart'], sp is None, len(ad),
+                         tuple(l.split(':')[0] + ('' if ':' not in l or l.endswith(':.') else '+') for l in seq)))
+        for site, detail in fails:
+            detail = dict(detail, history=list(seq), smart=cfg['smart'], sys_path=repr(sp),
+                          added_sys_path=repr(ad))
+            out.fail(site, what, detail)
+
+
 def _environment_paths(jedi, out, base, only=None):
     """environment_path given as str and as Path selects the same interpreter."""
     exes = {}
@@ -381,6 +475,8 @@ def _work(task):
                 _composition(jedi, env, out, cfg, base, task['depth'], only)
             elif task['kind'] == 'import':
                 _imports(jedi, env, out, cfg, base, only)
+            elif task['kind'] == 'history':
+                _histories(jedi, env, out, cfg, base, task['mode'], only)
             for f in out.fails[before:]:
                 f['cfg'] = cfg
     finally:
@@ -436,6 +532,19 @@ def _tasks(tier):
                         for ad in added for sm in (False, True)]
                 tasks.append({'kind': 'import', 'configs': cfgs})
     levels.append(('import resolves to what PathFinder finds on the composed path', tasks))
+    # 4. histories: one Project object shared by several scripts
+    tasks = []
+    for mode in ('pairs', 'probe-pairs', 'triples'):
+        for binding in bindings:
+            for sp in HIST_SYS:
+                for ad in HIST_ADDED:
+                    for sm in (False, True):
+                        cfg = dict(form=('str', 'abs'), sys_path=sp, added=ad, smart=sm,
+                                   unsafe=False, env_path=None, binding=binding)
+                        tasks.append({'kind': 'history', 'configs': [cfg], 'mode': mode})
+    levels.append(('histories: one shared Project x all ordered pairs of script locations '
+                   '(+ import probe on %d^2 pairs and %d^3 triples) vs a fresh Project'
+                   % (len(PROBE_SPOTS), len(TRIPLE_SPOTS)), tasks))
     levels.append(('environment_path as str and Path', [{'kind': 'environment'}]))
     return levels
 
@@ -475,7 +584,8 @@ def run(ctx):
             cfg = f.get('cfg')
             iid = '%s|%s' % (_cfg_id(cfg) if cfg else 'environment', '/'.join(map(str, f['what'])))
             case = {'task': {'kind': t['kind'], 'configs': [cfg] if cfg else [],
-                             'depth': t.get('depth', DEPTH), 'only': f['what']}}
+                             'depth': t.get('depth', DEPTH), 'mode': t.get('mode'),
+                             'only': f['what']}}
             ctx.violation(f['site'], iid, f['detail'], case)
     done = []
     exhaustive = True
@@ -487,7 +597,9 @@ def run(ctx):
         else:
             done.append('%s: %d tasks' % (name, n))
     ctx.coverage.update({
-        'states': tot.get('states', 0) + tot.get('roundtrips', 0) + tot.get('imports', 0),
+        'states': tot.get('states', 0) + tot.get('roundtrips', 0) + tot.get('imports', 0)
+        + tot.get('histories', 0),
+        'histories': tot.get('histories', 0),
         'transitions': tot.get('evals', 0), 'evaluations': tot.get('evals', 0),
         'traces_validated_against_impl': tot.get('evals', 0),
         'reference_model_comparisons': tot.get('model_steps', 0),
